@@ -8,7 +8,7 @@
 (* descriptors, hence the generated literals.)                                *)
 (* Emits one UNIVERSE line (the ground universe, in index order) and one      *)
 (* REPLAY line per distinct state (the complete expected observation).        *)
-EXTENDS SlottedCC, Json
+EXTENDS EMatch, Json
 
 Obs ==
   [key   |-> SetToSortSeq(eqs, <),
@@ -19,7 +19,10 @@ Obs ==
    syms  |-> [ti \in DOMAIN TermPool |-> Cardinality(Syms(part, TermPool[ti]))],
    cost  |-> [c \in 1..Len(CostNames) |->
                LET mc == MinCost(CostNames[c], part) IN
-               [i \in U |-> IF Represented(part, eqs, i) THEN mc[part[i]] ELSE 0]]]
+               [i \in U |-> IF Represented(part, eqs, i) THEN mc[part[i]] ELSE 0]],
+   \* expected e-matching results (EMatch.tla); empty pattern pool = not asked for
+   mt    |-> MatchObs(part, eqs),
+   nored |-> IF Patterns = << >> THEN TRUE ELSE NoRedundancy(part, eqs)]
 
 ASSUME PrintT("UNIVERSE " \o ToJson([n |-> n, N |-> N, us |-> us]))
 
